@@ -11,6 +11,26 @@ def straight_line(c, a, b):
     return sl(c, a, b)
 
 
+def followed_by(c, stmt, kind) -> bool:
+    """In stmt's own block, a statement of `kind` (ast.Break / ast.Continue /
+    ast.Return ...) follows it with only straight-line statements (no
+    branching, no other exit) in between -- robust to an inserted log call or
+    assignment, unlike `block[i + 1]`."""
+    par = c.idx.parent.get(id(stmt))
+    for field in ('body', 'orelse', 'finalbody'):
+        blk = getattr(par, field, None)
+        if isinstance(blk, list) and any(s is stmt for s in blk):
+            i = next(k for k, s in enumerate(blk) if s is stmt)
+            for s in blk[i + 1:]:
+                if isinstance(s, kind):
+                    return True
+                if not isinstance(s, (ast.Expr, ast.Assign, ast.AnnAssign,
+                                      ast.AugAssign, ast.Pass)):
+                    return False
+            return False
+    return False
+
+
 def params_rewrite(c):
     """Facts about the workflow_params table writers.
 
